@@ -201,13 +201,13 @@ def obligations(tier):
                           claim_doc='optimum = a minimal profile point; ranges = min/max pH of the points satisfying their predicate', max_paths=100000, shards=8))
     obs.append(Obligation('O3-grid-exact', o_grid_exact, code=['propka/lib.py:make_grid'], bounds='K in {0,1,4}; min in [-5,20], step in [0.01,5], max = min + (K+f)*step with f in [0,0.99] (exact reals)',
                           claim_doc='K+1 points min + i*step, none beyond max', max_paths=2000))
-    # z3 needs minutes per QF_FP query here: thorough tier only
-    ks = () if tier == 'quick' else (1, 2, 3, 5)
+    # QF_FP queries are discharged by the cvc5 binary (z3 needs minutes per query)
+    ks = () if tier == 'quick' else (1, 2, 3, 5, 10)
     for K in ks:
         obs.append(Obligation('O3-grid-end-point-FP[K=%d]' % K, mk_grid_fp(K), code=['propka/lib.py:make_grid'],
                               bounds='IEEE double, RNE; min = a/100 (a in [0,1400]), step = s/100 (s in [1,200]), max = (a+%d*s)/100 as correctly rounded doubles' % K,
                               claim_doc='exactly K+1 points (the end point of a decimal grid is not lost to accumulated rounding)',
-                              query_timeout_ms=600000, wall_s=1500, max_paths=200, oneshot=True))
+                              query_timeout_ms=300000, wall_s=1500, max_paths=200, oneshot=True, backend='cvc5'))
     for st in ((100, 50, 200) if tier == 'quick' else (100, 50, 200, 25, 150)):
         obs.append(Obligation('O4-window-filter[step=%.2f]' % (st / 100.0), mk_window(st), code=['propka/output.py:get_folding_profile_section'],
                               bounds='window step %.2f, window start lo/100 with lo in [0,300], 2-3 window points; 4 profile points at symbolic '
